@@ -10,7 +10,7 @@ from pyglove.ext.evolution import base as evo_base  # noqa: F401
 
 
 def gen_space(rng, max_points=4, depth=0, allow_float=True, named=None,
-              counter=None):
+              counter=None, bias=False):
     """Random DNASpec descriptor.  Small on purpose so dedup/sweep exhaust:
     at most `max_points` top-level points, nesting depth <= 2, and a global
     budget of 7 decision points."""
@@ -23,14 +23,31 @@ def gen_space(rng, max_points=4, depth=0, allow_float=True, named=None,
     for _ in range(n):
         if counter[0] >= 7:
             break
-        elements.append(gen_point(rng, depth, allow_float, named, counter))
+        elements.append(gen_point(rng, depth, allow_float, named, counter, bias))
     return {'kind': 'space', 'elements': elements}
 
 
-def gen_point(rng, depth, allow_float, named, counter):
+def gen_point(rng, depth, allow_float, named, counter, bias=False):
+    """`bias`: conditional (nested) points are mostly constrained multi-choices,
+    the shapes on which operators have to repair what they merge or re-draw."""
     counter[0] += 1
     name = f'dp{counter[0]}' if named else None
     r = rng.random()
+    if bias and depth > 0:
+        ncand = rng.randint(3, 4)
+        if r < 0.15 and allow_float:
+            return {'kind': 'float', 'min': 0.0, 'max': 1.0, 'name': name}
+        if r < 0.35:
+            k, distinct, srt = 1, True, False
+        else:
+            distinct = rng.random() < 0.8
+            srt = rng.random() < 0.35
+            k = rng.randint(2, ncand)
+            if distinct and not srt and rng.random() < 0.5:
+                k = ncand
+        cands = [{'kind': 'space', 'elements': []} for _ in range(ncand)]
+        return {'kind': 'choices', 'k': k, 'cands': cands, 'distinct': distinct,
+                'sorted': srt, 'name': name, 'literal': None}
     if allow_float and r < 0.2:
         lo = rng.choice([0.0, -1.0, 0.5, 1e-3])
         hi = lo + rng.choice([1.0, 2.5, 10.0])
@@ -44,10 +61,13 @@ def gen_point(rng, depth, allow_float, named, counter):
         srt = rng.random() < 0.4
         k = rng.randint(1, ncand if distinct else ncand + 1)
         k = min(k, 3)
+        if distinct and rng.random() < 0.3:
+            k = ncand                      # a permutation (every candidate exactly once)
+            srt = False
     cands = []
     for _ in range(ncand):
-        if depth < 2 and counter[0] < 7 and rng.random() < 0.2:
-            cands.append(gen_space(rng, 1, depth + 1, allow_float, named, counter))
+        if depth < 2 and counter[0] < 7 and rng.random() < 0.28:
+            cands.append(gen_space(rng, 1, depth + 1, allow_float, named, counter, bias))
         else:
             cands.append({'kind': 'space', 'elements': []})
     lit = None
